@@ -1494,7 +1494,7 @@ class MPO:
             physical_dimension (int, optional): The physical dimension of the identity matrices. Default is 2.
 
         """
-        mat = np.eye(2, dtype=np.complex128)
+        mat = np.eye(physical_dimension, dtype=np.complex128)
         mat = np.expand_dims(mat, (2, 3))
         self.length = length
         self.physical_dimension = physical_dimension
